@@ -101,6 +101,7 @@ PREDS = {
     "abs(abs(norm_) - 1) < settings.core['atol']": "p_unitmod e",
     "abs(norm_) - 1 < settings.core['atol']": "p_abs_lt1 e",
     "self.rhs.dims == state.dims": "p_same_dims e",
+    "self._dims[0] == self._dims[1]": "p_same_dims e",
 }
 DATA_OPS = {
     "self._data": "DCopy", "_data.to(data_type, self._data)": "DCopy",
